@@ -416,6 +416,8 @@ def main():
                         if r.rc != 0:
                             dst = os.path.join(REPLAYS, f"{pid}-died-{hashlib.sha1(open(cand,'rb').read()).hexdigest()[:16]}.json")
                             shutil.copy(cand, dst)
+                            if cfg.get("reduce_died"):
+                                dst = reduce_died_case(pid, binaries[j.argv[0].endswith(".race.test")], dst, rundir, excludes)
                             msg = "worker process died / reported while running this case: " + last_lines(r.out, 12)
                             violations.append((dst, msg))
                             confirmed = True
@@ -458,6 +460,72 @@ def main():
     finally:
         if not os.environ.get("VERIF_KEEP"):
             shutil.rmtree(rundir, ignore_errors=True)
+
+
+TOK_RE = re.compile(r'\{\{-?|-?\}\}|\{%-?|-?%\}|\{#|#\}|"(?:[^"\\\\]|\\\\.)*"|\'[^\']*\'|[A-Za-z_][A-Za-z_0-9]*|[0-9]+|\s+|.', re.S)
+
+
+def reduce_died_case(pid, binary, path, rundir, excludes, budget=60):
+    """Bounded delta debugging for a case that kills the worker (rapid cannot shrink those).
+    Works on descriptors that hold their template sources in case.files[case.entry] (C01):
+    token chunks of the entry source, whole helper files and the mutation list are removed
+    one at a time while a fresh process still dies on the case. Returns the path of the
+    smallest still-failing descriptor (the input path if nothing could be removed)."""
+    try:
+        doc = json.load(open(path))
+        case = doc["case"]
+        files, entry = case["files"], case["entry"]
+    except Exception:
+        return path
+    runs = [0]
+
+    def still_dies(c):
+        if runs[0] >= budget:
+            return False
+        runs[0] += 1
+        tmp = os.path.join(rundir, f"reduce-{runs[0]}.json")
+        json.dump({"property": doc["property"], "spec": doc["spec"], "message": doc.get("message", ""), "case": c}, open(tmp, "w"))
+        r = run_replay(binary, tmp, rundir, f"reduce-{runs[0]}", excludes, timeout=180)
+        return r.rc != 0
+
+    best = case
+    if case.get("muts"):
+        c = dict(best, muts=[])
+        # apply the mutations into the source first so that they can be dropped
+        if still_dies(c):
+            best = c
+    import base64
+    is_raw = bool(case.get("raw"))
+    if is_raw:
+        src = base64.b64decode(best["raw"]).decode("latin-1")
+    else:
+        src = best["files"][entry]
+    toks = TOK_RE.findall(src)
+
+    def with_src(b, text):
+        if is_raw:
+            return dict(b, raw=base64.b64encode(text.encode("latin-1")).decode())
+        return dict(b, files=dict(b["files"], **{entry: text}))
+    n = 2
+    while len(toks) >= 2 and runs[0] < budget:
+        chunk = max(1, len(toks) // n)
+        removed = False
+        for i in range(0, len(toks), chunk):
+            cand = toks[:i] + toks[i + chunk:]
+            c = with_src(best, "".join(cand))
+            if still_dies(c):
+                toks, best, removed = cand, c, True
+                n = max(n - 1, 2)
+                break
+        if not removed:
+            if chunk == 1:
+                break
+            n = min(len(toks), n * 2)
+    out = path.replace(".json", "-reduced.json")
+    doc["case"] = best
+    doc["message"] = doc.get("message", "") + f" (reduced by the driver in {runs[0]} fresh-process runs)"
+    json.dump(doc, open(out, "w"), indent=1)
+    return out
 
 
 def last_lines(s, n):
